@@ -41,6 +41,44 @@ UMg == {UM({}, {}), UM({"A"}, {})}
 DMg == {DM("d1", {"A"}, G({}, {})), DM("d1", {"B"}, G({}, {})),
         DM("d2", {}, G({}, {})), DM("d2", {}, G({<<"u1", "A">>}, {})), DM("d2", {}, G({<<"r1", "A">>}, {<<"u1", "r1">>}))}
 
+(* ---- directed family "paged revocation" (PagedSpec): exhaustively generated and model-checked ----
+   setup     access to A through a role (r1{A}, u1{B}+r1), directly (u1{A,B}), or both (r1{A}, u1{A,B}+r1); B is kept throughout
+   documents d1, d2, d3 written in this order, all in A, at most one of them also in the kept channel B
+   pull      Page(0): the client holds everything
+   revoke    one or two DISTINCT actions of: role loses A | user loses the role | user loses direct A | role deleted
+             (so: channel removed from the role THEN role removed from the user, and every other order / overlap), then
+             optionally d3 is written again (a document changed after the revocation)
+   pull      pages with one fixed limit out of {0, 1, 2} until the pull completes: every page boundary inside the revocation,
+             resumed from the compound token each time.  The binding runs this family with a channel query page of 2, so limit 0
+             pages the revoked channel inside the gateway as well. *)
+PageCount == Cardinality({i \in 1..Len(hist) : hist[i].a = "Page"})
+AfterPull == {i \in 1..Len(hist) : hist[i].a # "Page" /\ \E j \in 1..(i - 1) : hist[j].a = "Page"}   \* actions since the first pull
+Touched   == docs["d3"].rev > 1
+DocOrd    == [d \in {"d1", "d2", "d3"} |-> CASE d = "d1" -> 1 [] d = "d2" -> 2 [] d = "d3" -> 3]
+KeptCount == Cardinality({d \in Docs : "B" \in docs[d].chans})
+PSetup ==
+  \/ (~pr["u1"].ex /\ ~pr["r1"].ex /\ (AdminPut("r1", {"A"}, {}) \/ AdminPut("u1", {"A", "B"}, {})))
+  \/ (~pr["u1"].ex /\ pr["r1"].ex /\ \E cs \in {{"B"}, {"A", "B"}} : AdminPut("u1", cs, {"r1"}))
+NextDoc(d) == docs[d].seq = 0 /\ (\A e \in Docs : (DocOrd[e] < DocOrd[d]) => docs[e].seq > 0)      \* in name order
+PDocs ==
+  /\ pr["u1"].ex
+  /\ \E d \in Docs : NextDoc(d) /\ (DocPut(d, {"A"}, NoG) \/ (KeptCount = 0 /\ DocPut(d, {"A", "B"}, NoG)))
+PRevoke ==
+  /\ PageCount = 1 /\ ~Touched /\ Cardinality(AfterPull) < 2
+  /\ \/ (Live(pr, "r1") /\ pr["r1"].expl["A"] > 0 /\ AdminPut("r1", {}, {}))
+     \/ (pr["u1"].rexpl["r1"] > 0 /\ AdminPut("u1", Keys(pr["u1"].expl), {}))
+     \/ (pr["u1"].expl["A"] > 0 /\ AdminPut("u1", {"B"}, Keys(pr["u1"].rexpl)))
+     \/ RoleDel("r1")
+PTouch == PageCount = 1 /\ ~Touched /\ AfterPull # {} /\ DocPut("d3", docs["d3"].chans, NoG)
+PPages ==
+  \/ (PageCount = 0 /\ \A d \in Docs : docs[d].seq > 0) /\ Page(0)
+  \/ (PageCount = 1 /\ AfterPull # {} /\ \E lim \in {0, 1, 2} : Page(lim))
+  \/ (PageCount > 1 /\ InPull /\ Page(out.lim))
+PagedNext == Len(hist) < MaxSteps /\ (PSetup \/ PDocs \/ PRevoke \/ PTouch \/ PPages)
+PagedSpec == Init /\ [][PagedNext]_vars
+PagedExport == (PageCount > 1 /\ out.on /\ out.done) => PrintT(<<"BEH", ToJson(hist)>>)
+PagedBounded == Len(hist) < MaxSteps          \* the family must end by itself (a completed second pull), never by the step bound
+
 (* ---- small simulation universe: one role, two channels, two documents (d2 also grants) ---- *)
 UMr2 == {UM({}, {}), UM({}, {"r1"}), UM({"A"}, {}), UM({"B"}, {"r1"})}
 DMg2 == {DM("d1", {}, G({}, {})), DM("d1", {"A"}, G({}, {})), DM("d1", {"B"}, G({}, {})), DM("d1", {"A", "B"}, G({}, {})),
